@@ -4,7 +4,7 @@ set -u
 export GOFLAGS=-mod=mod GOPROXY=off GOSUMDB=off GOTOOLCHAIN=local
 S=/verif/seeded/$1
 W=/var/tmp/seedcf-$1
-BASE=$(git -C /repo rev-list --max-parents=0 HEAD)
+BASE=${SEED_BASE:-$(git -C /repo rev-list --max-parents=0 HEAD)}
 git -C /repo worktree remove --force $W >/dev/null 2>&1
 git -C /repo worktree add --detach $W $BASE >/dev/null 2>&1 || { echo "worktree failed"; exit 2; }
 cd $W
